@@ -1181,6 +1181,12 @@ impl Sim {
             Op::MapPre(c, s) | Op::MapPreUnmarked(c, s) => {
                 // The client spawns its entity in advance; the server spawns its own and
                 // registers the correspondence before the entity is first replicated.
+                // (for odd slots the client entity lives in a re-used slot: generation > 1)
+                if s % 2 == 1 {
+                    let w = self.clients[c as usize].app.world_mut();
+                    let dummy = w.spawn_empty().id();
+                    w.despawn(dummy);
+                }
                 let pre = self.clients[c as usize].app.world_mut().spawn_empty().id();
                 self.prespawned.insert((c as usize, s), pre);
                 let etag = s + 1;
